@@ -142,6 +142,126 @@ theorem stmt_order_independent_deferred_partial {t₁ t₂ : Table} (hs : Table.
             rw [h2, hf] at this
             exact this.trans h3
 
+/-- an arithmetic-overflow stop does not depend on the `local` flag -/
+theorem evalArg_overflow_loc {e : Arg → Front.EvalOut} {l : Bool} (l' : Bool) {pos done : Nat} {a x : Arg} {r : Front.Res}
+    (h : Front.evalArg e l pos done a = .error (x, r)) (ho : r.isOverflow) :
+    Front.evalArg e l' pos done a = .error (x, r) := by
+  unfold Front.evalArg at h ⊢
+  split
+  · rename_i hd
+    simp only [hd, if_true] at h
+    cases he : e a with
+    | complete y => rw [he] at h; cases h
+    | deferred c y => rw [he] at h; exact h
+    | noSuchVariable n y =>
+      rw [he] at h; simp only at h
+      split at h <;> (cases h; simp [Front.Res.isOverflow] at ho)
+    | error er y => rw [he] at h; exact h
+  · rename_i hd
+    simp only [hd, if_false] at h; cases h
+
+theorem get_overflow_loc {k : Front.Kind} {e : Arg → Front.EvalOut} {l : Bool} (l' : Bool) {pos done : Nat} {a a' : Arg}
+    {d' : Nat} {r : Front.Res} (h : Front.get k e l pos done a = .stop a' d' r) (ho : r.isOverflow) :
+    Front.get k e l' pos done a = .stop a' d' r := by
+  cases hk : k.evals with
+  | false =>
+    cases k <;> simp [Front.Kind.evals] at hk
+    all_goals (simp only [Front.get] at h ⊢; exact h)
+  | true =>
+    rw [Front.get_eq_post k hk] at h ⊢
+    cases he : Front.evalArg e l pos done a with
+    | error p =>
+      obtain ⟨x, r'⟩ := p
+      rw [he] at h
+      simp only [Front.GetOut.stop.injEq] at h
+      obtain ⟨h1, h2, h3⟩ := h
+      subst h1; subst h2; subst h3
+      rw [evalArg_overflow_loc l' he ho]
+    | ok p => rw [he] at h; rw [evalArg_ok_loc he]; exact h
+
+theorem conv_overflow_loc (e : Arg → Front.EvalOut) (l l' : Bool) : ∀ (ks : List Front.Kind) (pos : Nat) (pre rest : List Arg)
+    (done : Nat) (instr : Instr) (vals : List Front.Val) (A : List Arg) (D : Nat) (I : Instr) (r : Front.Res),
+    Front.conv e l ks pos pre rest done instr vals = .stop A D I r → r.isOverflow →
+    Front.conv e l' ks pos pre rest done instr vals = .stop A D I r := by
+  intro ks
+  induction ks with
+  | nil => intro pos pre rest done instr vals A D I r h _; simpa [Front.conv] using h
+  | cons k ks ih =>
+    intro pos pre rest done instr vals A D I r h ho
+    cases rest with
+    | nil => simpa [Front.conv] using h
+    | cons a rest =>
+      simp only [Front.conv] at h ⊢
+      cases hg : Front.get k e l pos done a with
+      | ok v a' d' => rw [hg] at h; rw [get_ok_loc hg]; exact ih _ _ _ _ _ _ _ _ _ _ h ho
+      | stop a' d' r' =>
+        rw [hg] at h
+        simp only [Front.ConvOut.stop.injEq] at h
+        obtain ⟨h1, h2, h3, h4⟩ := h
+        subst h4
+        rw [get_overflow_loc l' hg ho]
+        simp only [Front.ConvOut.stop.injEq]
+        exact ⟨h1, h2, h3, trivial⟩
+
+theorem literal_not_evalErr {addr : Nat} {tgt : Int} {ee : Front.EvalErr} : Front.literal addr tgt ≠ .error (.evalErr ee) := by
+  unfold Front.literal
+  simp only
+  intro h
+  repeat' split at h
+  all_goals cases h
+
+theorem branch_not_evalErr {addr : Nat} {tgt mn mx : Int} {ee : Front.EvalErr} : Front.branch addr tgt mn mx ≠ .error (.evalErr ee) := by
+  unfold Front.branch
+  simp only
+  intro h
+  repeat' split at h
+  all_goals cases h
+
+theorem finish_not_evalErr {addr n : Nat} {i : Instr} {vals : List Front.Val} {ee : Front.EvalErr} :
+    Front.finish addr i vals n ≠ .error (.evalErr ee) := by
+  intro h
+  unfold Front.finish at h
+  split at h
+  all_goals first
+    | (cases h; done)
+    | (split at h <;> first
+        | (cases h; done)
+        | (rename_i hh; cases h; first | exact literal_not_evalErr hh | exact branch_not_evalErr hh | skip))
+  all_goals (rename_i hh; split at hh <;> exact branch_not_evalErr hh)
+
+/-- an `EvalError::Overflow` outcome of `assemble` does not depend on the `local` flag -/
+theorem assemble_overflow_loc {st fs : Front.St} {e : Arg → Front.EvalOut} {l : Bool} (l' : Bool) {r : Front.Res}
+    (h : Front.assemble st e l = (fs, r)) (ho : r.isOverflow) : Front.assemble st e l' = (fs, r) := by
+  unfold Front.assemble at h ⊢
+  simp only at h ⊢
+  split
+  · rename_i c; rw [if_pos c] at h; cases h; simp [Front.Res.isOverflow] at ho
+  · rename_i c
+    rw [if_neg c] at h
+    split
+    · rename_i c2; rw [if_pos c2] at h; cases h; simp [Front.Res.isOverflow] at ho
+    · rename_i c2
+      rw [if_neg c2] at h
+      cases hc : Front.conv e l (Front.kinds st.instr) 0 [] st.args st.argsDone st.instr [] with
+      | stop A D I r' =>
+        rw [hc] at h; simp only [Prod.mk.injEq] at h
+        obtain ⟨h1, h2⟩ := h
+        subst h2
+        rw [conv_overflow_loc e l l' _ _ _ _ _ _ _ _ _ _ _ hc ho]
+        simp only [h1]
+      | ok A D I V =>
+        rw [hc] at h
+        simp only at h
+        cases hfin : Front.finish st.addr I V (Front.kinds st.instr).length with
+        | ok i => rw [hfin] at h; cases h; simp [Front.Res.isOverflow] at ho
+        | error d =>
+          rw [hfin] at h
+          simp only [Prod.mk.injEq] at h
+          obtain ⟨_, h2⟩ := h
+          subst h2
+          cases d <;> simp only [Front.Res.isOverflow] at ho
+          exact absurd hfin finish_not_evalErr
+
 /-- C08 (instructions whose evaluated operands are all numbers, Deferred names allowed): no condition on the operands -/
 theorem stmt_order_independent_deferred_number {t₁ t₂ : Table} (hs : Table.Sub t₁ t₂) (hT : Table.Ok t₂) (addr : Nat)
     (name : Bytes) (args : List Arg) (hlit : ∀ a ∈ args, Simp.litsOk a = true) (c : Bytes) (fs1 : Front.St)
@@ -154,6 +274,97 @@ theorem stmt_order_independent_deferred_number {t₁ t₂ : Table} (hs : Table.S
   have := hk t hm p.1 (List.of_mem_zip hpz).1
   rw [this] at hsh
   cases hsh
+
+/-- C08 (instructions whose evaluated operands are all numbers — `B`, `B<cond>`, `BL`, `ADR`, `BKPT`, `SVC`, `UDF`, `RSBS` —,
+Deferred names allowed in `t₁`, ACCEPTANCE)  First `assemble` over `t₁` deferred.  Over `t₂ ⊇ t₁`:
+* if the FRESH assembly completes with `i`, the re-run completes with `i` or ends with an arithmetic-overflow diagnostic;
+* if the RE-RUN completes with `i`, the fresh assembly completes with `i` or ends with an arithmetic-overflow diagnostic.
+So the two orders give the same bytes or one of them reports `EvalError::Overflow` — nothing else. -/
+theorem stmt_number_acceptance_deferred {t₁ t₂ : Table} (hs : Table.Sub t₁ t₂) (hT : Table.Ok t₂) (addr : Nat)
+    (name : Bytes) (args : List Arg) (hlit : ∀ a ∈ args, Simp.litsOk a = true) (c : Bytes) (fs1 : Front.St)
+    (h1 : Front.build addr name args (frontEval t₁) true = .deferred c fs1)
+    (hk : ∀ t, Front.mnemonic name = some t → ∀ k ∈ Front.kinds t, k.shape = false) :
+    (∀ i, Front.build addr name args (frontEval t₂) true = .completed i →
+      (∃ fs2, Front.assemble fs1 (frontEval t₂) false = (fs2, .completed) ∧ fs2.instr = i) ∨
+      (Front.assemble fs1 (frontEval t₂) false).2.isOverflow) ∧
+    (∀ fs2, Front.assemble fs1 (frontEval t₂) false = (fs2, .completed) →
+      Front.build addr name args (frontEval t₂) true = .completed fs2.instr ∨
+      ∃ st w, Front.build addr name args (frontEval t₂) true = .error (.evalErr (.overflow w)) st) := by
+  unfold Front.build at h1
+  cases hm : Front.mnemonic name with
+  | none => rw [hm] at h1; cases h1
+  | some t =>
+    rw [hm] at h1
+    simp only at h1
+    cases ha : Front.assemble ⟨addr, t, 0, args⟩ (frontEval t₁) true with
+    | mk st r =>
+      rw [ha] at h1
+      cases r with
+      | completed => cases h1
+      | error d => cases h1
+      | panic => cases h1
+      | deferred c' =>
+        simp only [Front.BuildOut.deferred.injEq] at h1
+        obtain ⟨rfl, rfl⟩ := h1
+        have hgr : ∀ p ∈ List.zip (Front.kinds t) args, Front.GrowsO p.1 (frontEval t₁) (frontEval t₂) p.2 := by
+          intro p hpz
+          have hsh := hk t hm p.1 (List.of_mem_zip hpz).1
+          cases hnum : p.1.number with
+          | true => exact growsO_number hs hT hnum p.2 (hlit p.2 (List.of_mem_zip hpz).2)
+          | false =>
+            refine growsO_nonevals hs ?_ p.2
+            cases hp : p.1 <;> simp_all [Front.Kind.shape, Front.Kind.number, Front.Kind.evals]
+        refine ⟨fun i hb => ?_, fun fs2 h2 => ?_⟩
+        · -- fresh completed
+          simp only [Front.build, hm] at hb
+          cases hg : Front.assemble ⟨addr, t, 0, args⟩ (frontEval t₂) true with
+          | mk fsT rT =>
+            rw [hg] at hb
+            cases rT with
+            | deferred x => cases hb
+            | error x => cases hb
+            | panic => cases hb
+            | completed =>
+              simp only [Front.BuildOut.completed.injEq] at hb
+              have hf := assemble_completed_loc false hg
+              have ov := (Front.assemble_retry_ov (frontEval t₁) (frontEval t₂) addr t args hgr st c' ha false).1
+              rcases ov (by rw [hf]) with ⟨q1, q2⟩ | q
+              · left
+                cases hr : Front.assemble st (frontEval t₂) false with
+                | mk fs2 r2 =>
+                  rw [hr] at q1 q2
+                  simp only at q1
+                  subst q1
+                  rw [hf] at q2
+                  exact ⟨fs2, rfl, q2.trans hb⟩
+              · exact .inr q
+        · -- retry completed
+          have ov := (Front.assemble_retry_ov (frontEval t₁) (frontEval t₂) addr t args hgr st c' ha false).2
+          rcases ov (by rw [h2]) with ⟨q1, q2⟩ | q
+          · left
+            cases hf : Front.assemble ⟨addr, t, 0, args⟩ (frontEval t₂) false with
+            | mk fsF rF =>
+              rw [hf] at q1 q2
+              simp only at q1
+              subst q1
+              have h3 := assemble_completed_loc true hf
+              simp only [Front.build, hm, h3]
+              rw [h2] at q2
+              rw [q2]
+          · right
+            -- an overflow diagnostic does not depend on `local` either
+            cases hf : Front.assemble ⟨addr, t, 0, args⟩ (frontEval t₂) false with
+            | mk fsF rF =>
+              rw [hf] at q
+              simp only at q
+              have h3 := assemble_overflow_loc true hf q
+              simp only [Front.build, hm, h3]
+              cases rF <;> first | exact False.elim q | skip
+              rename_i d
+              cases d <;> first | exact False.elim q | skip
+              rename_i ee
+              cases ee <;> first | exact False.elim q | skip
+              exact ⟨_, _, rfl⟩
 
 /-- non-vacuity: `B x + 2` at address 0 with `x` declared `.global` (Deferred) at the statement, `x = 6` later: deferred with
 the operand unchanged, the re-run completes with `B +4`, as does the fresh assembly -/
@@ -204,6 +415,25 @@ theorem deferred_below6 : exSummary (run (exOrdFs exBelow6) [109]) = some (true,
 
 /-- K6: declared, defined, then used — the same image (before the repair: refused twice, placeholder left) -/
 theorem deferred_above6 : exSummary (run (exOrdFs exAbove6) [109]) = some (true, 0, [(536870912, [17, 24])]) := by
+  decide +kernel
+
+/-! ## the remaining difference: arithmetic overflow only
+
+`stmt_number_acceptance_deferred` allows exactly one difference between the two orders, an `EvalError::Overflow`; it does
+occur: with `x` Deferred the simplifier folds `(x + MAX) - MAX` to `x` without ever adding, with `x = 1` known it adds
+first.  Replayed on `trias`: BELOW assembles `01 DF`, ABOVE reports `overflow in 1 plus 9223372036854775807`. -/
+
+def exOvB : Bytes :=
+  bytesOf ".global x;\n.addr 0x20000000;\nSVC (x + 9223372036854775807) - 9223372036854775807;\n.const x, 1;\n"
+def exOvA : Bytes :=
+  bytesOf ".global x;\n.addr 0x20000000;\n.const x, 1;\nSVC (x + 9223372036854775807) - 9223372036854775807;\n"
+
+/-- declared, used, then defined: `SVC 1` (`01 DF`) -/
+theorem overflow_only_below : exSummary (run (exOrdFs exOvB) [109]) = some (true, 0, [(536870912, [1, 223])]) := by
+  decide +kernel
+
+/-- declared, defined, then used: arithmetic overflow, diagnosed (twice), the placeholder stays -/
+theorem overflow_only_above : exSummary (run (exOrdFs exOvA) [109]) = some (false, 2, [(536870912, [190, 190])]) := by
   decide +kernel
 
 end Trion.Asm
